@@ -3,12 +3,15 @@
    mpeg2_ts_pkt_is_valid, mpeg2_ts_pkt_get_next, mpeg2_ts_pkt_size_detect).
    Packet of `size` bytes: sync byte, PID (13 bit), adaptation-field-exists / contains-payload
    bits, an adaptation field length byte `afl` (when AFE is set), filler `fill` up to `size`.
+   For the stream functions the packet is also embedded in a buffer: `pre` zero bytes (no sync
+   byte) in front of it and `cut` bytes removed from its end (stream); a search for the next
+   packet may only report a position where a whole packet fits.
    Envelope (ISO 13818-1 2.4.3): an adaptation field must end inside the packet
    (5 + afl <= size, and leave one byte when a payload is announced); a PSI table header
    (3 bytes) looked at by the validator must lie inside the packet too.  `psi_off` is where a
    validator that follows the fields finds the first payload byte.                          *)
 EXTENDS Naturals, Sequences, TLC, Json
-CONSTANTS Sizes, Syncs, Pids, Afes, Cps, Afls, Fills
+CONSTANTS Sizes, Syncs, Pids, Afes, Cps, Afls, Fills, Pres, Cuts
 VARIABLES f, cs
 Rep(b, n) == [i \in 1..n |-> b]
 PsiPids == {0, 1, 2, 17, 18}
@@ -22,13 +25,18 @@ Envelope(r) ==
    ELSE IF r.afe = 1 /\ (5 + r.afl + r.cp > r.size) THEN [why |-> "af-beyond", psi_off |-> po]
    ELSE IF r.pid \in PsiPids /\ po + 3 > r.size THEN [why |-> "psi-hdr-beyond", psi_off |-> po]
    ELSE [why |-> "fits", psi_off |-> po]
-MkCase(r) == LET v == Envelope(r) IN
-   [fields |-> r, bytes |-> Full(r), why |-> v.why, psi_off |-> v.psi_off,
+Stream(r) == LET u == Rep(0, r.pre) \o Full(r) IN SubSeq(u, 1, Len(u) - r.cut)
+(* is there an offset >= 0 where a 188 byte packet with a sync byte fits into the stream? *)
+HasPkt(st) == \E i \in 0..(Len(st) - 188) : st[i + 1] = 71
+MkCase(r) == LET v == Envelope(r)  st == Stream(r) IN
+   [fields |-> r, bytes |-> Full(r), stream |-> st, has_pkt |-> HasPkt(st),
+    why |-> v.why, psi_off |-> v.psi_off,
     must_refuse |-> (v.why \in {"no-sync", "af-beyond"})]
-Init == /\ f \in [size : Sizes, sync : Syncs, pid : Pids, afe : Afes, cp : Cps, afl : Afls, fill : Fills]
+Init == /\ f \in [size : Sizes, sync : Syncs, pid : Pids, afe : Afes, cp : Cps, afl : Afls, fill : Fills,
+                  pre : Pres, cut : Cuts]
         /\ (f.afe = 0 => f.afl = 0)
         /\ cs = MkCase(f)
 Spec == Init /\ [][FALSE]_<<f, cs>>
-SizeLaw == Len(cs.bytes) = f.size
+SizeLaw == Len(cs.bytes) = f.size /\ Len(cs.stream) = f.pre + f.size - f.cut
 Emit == PrintT(ToJson(cs))
 =============================================================================
